@@ -55,8 +55,8 @@ Definition no_zero_count (v : pyval) : bool :=
                          | _ => true
                          end) v.
 
-(* everything that gets sorted consists of mutually comparable scalars of ONE class (numbers | str | bytes),
-   or has at most one element *)
+(* everything that gets sorted consists of mutually comparable scalars of ONE class (numbers | str | bytes).
+   (Sufficient, not necessary: e.g. a dict whose keys are tuples of numbers is also sorted canonically.) *)
 Definition sort_class (v : pyval) : option nat :=
   match v with
   | PA (AInt _ | ABool _ | AFloat _) => Some 0
@@ -67,7 +67,7 @@ Definition sort_class (v : pyval) : option nat :=
 Definition in_class (c : nat) (v : pyval) : bool :=
   match sort_class v with Some c' => Nat.eqb c c' | None => false end.
 Definition homog (l : list pyval) : bool :=
-  (length l <=? 1) || forallb (in_class 0) l || forallb (in_class 1) l || forallb (in_class 2) l.
+  forallb (in_class 0) l || forallb (in_class 1) l || forallb (in_class 2) l.
 
 Definition homogeneous_sortable (v : pyval) : bool :=
   forall_nodes (fun x => match x with
